@@ -1,17 +1,22 @@
 use crate::runner::Ctx;
 
+pub mod c06;
 pub mod c07;
 pub mod c09;
 pub mod c10;
 pub mod c16;
+pub mod c18;
+pub mod c18_sessions;
 
 /// dispatch; false if the id is unknown
 pub fn run(ctx: &Ctx) -> bool {
     match ctx.prop.as_str() {
+        "C06" => c06::run(ctx),
         "C07" => c07::run(ctx),
         "C09" => c09::run(ctx),
         "C10" => c10::run(ctx),
         "C16" => c16::run(ctx),
+        "C18" => c18::run(ctx),
         _ => return false,
     }
     true
